@@ -26,6 +26,8 @@ mod parser;
 mod sort;
 mod specification;
 mod tokenizer;
+#[cfg(a2lfile_verif)]
+pub mod verif;
 mod writer;
 
 pub use itemlist::ItemList;
